@@ -988,7 +988,7 @@ fn run(args: &Args, prop: &str) -> i32 {
         let j = crate::report::read_replay(std::path::Path::new(&p));
         (j["case"]["type"].as_str().unwrap_or("").to_string(), j["case"]["max_segments"].as_u64().unwrap_or(2) as usize)
     });
-    let rep = new_report(prop, args, "exploration");
+    let rep = new_report(prop, args, "model_checking");
     let mut cfgs = configs(args);
     if let Some((_, ms)) = &replay_type {
         cfgs.retain(|c| c.0 == *ms);
